@@ -205,7 +205,12 @@ func runsFor(prop, tier string) []run {
 			"Remove:1", "Restart:1", "Add:1", "Sync:1", "Verify:1", "W:0", "Cleaners"}
 		clean := eb.Cfg{RF: 2, N: 2, Alphabet: []string{"Tick", "TickF", "W0", "DelSnap", "Snap"}, Oracles: []string{"c11", "c02", "c18"}, Drain: true, Real: true,
 			MaxWrites: 5, MaxSnaps: 1, MaxFaults: 2, InitOps: cyc}
+		// a user snapshot exists and the second replica is being rebuilt (WO): deleteSnapshot must be refused until the
+		// verify promoted it and a checkpoint is recorded
+		reb := mk(append(append([]string{}, started...), "W:0", "Snap:0", "W:0", "Add:1"))
+		reb.Alphabet = []string{"W0", "Snap", "DelSnap", "Sync", "Verify", "MonFail", "MonWake", "ERR"}
 		return []run{
+			{"rf2-deletion-while-rebuilding", reb, pick(4, 5), minutes(pickf(0.4, 3))},
 			{"rf2-from-2rw-two-user-snapshots", mk(full), pick(4, 5), minutes(pickf(0.8, 6))},
 			{"rf2-from-2rw", mk(rw2), pick(4, 6), minutes(pickf(0.5, 5))},
 			{"rf2-real-cleaner-loop-tick-by-tick", clean, pick(4, 5), minutes(pickf(0.8, 5))},
